@@ -938,7 +938,7 @@ pub(crate) fn string_methods(builder: &mut MethodsBuilder) {
                 if v < 0 {
                     None
                 } else {
-                    Some((v + 1) as usize)
+                    Some(v as usize + 1)
                 }
             }
         };
@@ -1037,7 +1037,7 @@ pub(crate) fn string_methods(builder: &mut MethodsBuilder) {
                 if v < 0 {
                     None
                 } else {
-                    Some((v + 1) as usize)
+                    Some(v as usize + 1)
                 }
             }
         };
